@@ -19,7 +19,7 @@ for pid in ids:
         'replay_cmd_template': './check %s --replay {path}' % pid,
         'engine': 'lean4-model+correspondence',
         'level_claimed': {'category': 'proof', 'text': sp['level_text'], 'design_ref': sp.get('design_ref', 'DESIGN.md §7 ' + pid)},
-        'level_note': sp['level_note'],
+        'level_note': sp['level_note'] + ' Since the static tie (DESIGN.md 0.7) the model definitions this property is stated about are additionally proved equal to a translation of the current source regenerated on every run (Tie.lean, TieTables.lean; headline theorems restated over the generated definitions in OnSource.lean), and every other item of src/ is pinned by the fingerprint of its token text; trusted for that: tools/rs2lean.py and its dictionary of Rust std readings. A source that no longer translates is reported (after a search for a failing input) as VIOLATION ... no-failing-input-found for the properties anchored in the changed file.',
         'technique': sp.get('technique', 'Lean 4 theorem over a hand-written model + differential correspondence check against the Rust crate (request streams with woven call histories)'
                             + (' + static tie: the model is proved equal (Tie.lean/TieTables.lean) to a translation of the current source regenerated on every run (tools/rs2lean.py)' if pid in TIE else '')),
     })
